@@ -19,7 +19,7 @@ import gen_full as GF
 import nomix_corr as NM
 
 PID = "C16"
-BAD = ("panic", "process-crash", "engine-error", "hang")
+BAD = ("panic", "process-crash", "engine-error", "hang", "solve-error", "solver-error")   # solve-error: Solve on a built model with valid options returned an error (the start solution construction hands an engine error back that way)
 
 
 def neutral_options():
@@ -109,11 +109,36 @@ def nomix_units_input(rng):
     return {"stops": stops, "vehicles": vehicles}
 
 
+def oversubscribed_input(rng):
+    n = rng.randint(90, 220)
+    kind = rng.choice(["max_stops", "capacity", "both"])
+    stops = []
+    for i in range(n):
+        st = {"id": "s%d" % i, "location": {"lat": 51.0 + 0.001 * rng.randint(0, 60), "lon": 7.0 + 0.001 * rng.randint(0, 60)}}
+        if kind in ("capacity", "both"):
+            st["quantity"] = -1
+        if rng.random() < 0.1:
+            st["unplanned_penalty"] = rng.choice([1000, 500000])
+        stops.append(st)
+    vehicles = []
+    for v in range(rng.randint(1, 2)):
+        ve = {"id": "v%d" % v, "start_location": {"lat": 51.03, "lon": 7.03}, "speed": 10}
+        if rng.random() < 0.5:
+            ve["end_location"] = {"lat": 51.03, "lon": 7.03}
+        if kind in ("max_stops", "both"):
+            ve["max_stops"] = rng.randint(1, 3)
+        if kind in ("capacity", "both"):
+            ve["capacity"] = rng.randint(1, 3)
+        vehicles.append(ve)
+    return {"stops": stops, "vehicles": vehicles}
+
+
 def run(tier, seed, replay=None):
     chk = FW.Check(PID, tier, seed)
     if not chk.builds(model=True, harness=True):
         return chk.finish()
     chk.proofs()
+    chk.proofs("NoMix")              # the only built-in rule whose exact form answers with an error: the estimate never lets a move through that the rule then refuses
     chk.proofs("PlanUnitsBuild")     # the factory's grouping of precedence relations into plan units never indexes out of range; units = connected components
     rng = random.Random(seed * 1009 + 16)
     blocks, meta = [], {}
@@ -167,6 +192,15 @@ def run(tier, seed, replay=None):
         meta["x%d" % i] = (inp, opts, "valid-nomix-units")
         blocks.append(("x%d" % i, GF.case_lines(inp, opts, dict(settings, iterations=80, duration_ms=1500, starts=i % 3))))
     n += n5
+    # over-subscribed stream: 90-220 plan units of which only a handful fit on the vehicles (max_stops, capacity), solved long
+    # enough for the solver's adaptive parameters (number of units to un-plan: 5% of the units, growing while the run stalls) to
+    # exceed the number of planned units
+    n6 = 80 if tier == "quick" else 1500
+    for i in range(n6):
+        inp = oversubscribed_input(rng)
+        meta["o%d" % i] = (inp, neutral_options(), "valid-oversubscribed")
+        blocks.append(("o%d" % i, GF.case_lines(inp, neutral_options(), dict(settings, iterations=rng.choice([300, 450, 700]), duration_ms=6000, starts=i % 2))))
+    n += n6
     res = CR.run_crash(blocks, "c16_" + tier, timeout=3000)
     # models assembled through the public Go API: vehicles sharing vehicle types, sparse per-type settings
     n4 = 400 if tier == "quick" else 8000
